@@ -210,6 +210,9 @@ func (b *batch) cleanup() {
 	}
 }
 
+// stallLimitS: a worker that announces no new program for this long is killed.
+const stallLimitS = 120
+
 // ---- running workers ----
 
 type workerOut struct {
@@ -430,7 +433,7 @@ func cmdCheck(id, tier string, seed uint64) int {
 		batches++
 		seedsUsed = append(seedsUsed, mix(seed, uint64(batchNo)))
 		jobs := makeJobs(pc, b, tier, seed, batchNo, k, workers, budget-(nowS()-t0))
-		outs := runWorkers(b, jobs, workerEnv(pc, b), 180)
+		outs := runWorkers(b, jobs, workerEnv(pc, b), stallLimitS)
 		for _, wo := range outs {
 			if wo.res != nil {
 				a.add(wo.res)
@@ -463,6 +466,11 @@ func cmdCheck(id, tier string, seed uint64) int {
 	// report findings
 	known := loadKnown()
 	os.MkdirAll(filepath.Join(verifDir, "replays"), 0o755)
+	if old, _ := filepath.Glob(filepath.Join(verifDir, "replays", id+"-*.json")); len(old) != 0 {
+		for _, f := range old {
+			os.Remove(f)
+		}
+	}
 	violations := 0
 	knownHits := map[string]int{}
 	reported := map[string]bool{}
